@@ -372,29 +372,48 @@ def addInsPsg {α} (A : Arith α) (st : State) (id : Nat) (tag : List String) : 
                     tyMap := mset st.tyMap id Tables.mdsdrv_INS_PSG }
 
 /-! ## pitch envelopes -/
-/-- `none` = `std::invalid_argument("add_pitch_node")` -/
-def pitchChunks {α} (A : Arith α) (useExt extend : Bool) (target : α) :
-    Nat → Int → α → NBytes → Option NBytes
-  | 0, _, _, env => some env
-  | fuel + 1, length, counter, env =>
-    if length ≤ 0 then some env else
-    let delta := A.divNat (A.sub target counter) length.toNat
+/-- one iteration of the `while(length > 0)` loop of `add_pitch_node`: `env_initial` (after the
+0x7eff cap), `env_delta` (as pushed), `env_len` -/
+structure RawChunk where
+  start : Int
+  delta : Int
+  len : Int
+deriving Repr, DecidableEq
+
+/-- `env_initial` of an iteration -/
+def chunkStart {α} (A : Arith α) (counter : α) : Int :=
+  let e := i16 (A.trunc (A.mul256 counter))
+  if e > 0x7eff then 0x7eff else e
+
+/-- `env_delta = trunc(((target-counter)/length) * 256)` of an iteration, before any clamp -/
+def chunkDelta {α} (A : Arith α) (target counter : α) (length : Int) : Int :=
+  i16 (A.trunc (A.mul256 (A.divNat (A.sub target counter) length.toNat)))
+
+def clamp8 (d : Int) : Int := if d > 127 then 127 else if d < -128 then -128 else d
+
+/-- the loop of `add_pitch_node` as the list of its iterations.
+`none` = `std::invalid_argument("add_pitch_node")` (compact form, extended allowed, step does
+not fit a signed byte). -/
+def nodeChunks {α} (A : Arith α) (useExt extend : Bool) (target : α) :
+    Nat → Int → α → Option (List RawChunk)
+  | 0, _, _ => some []
+  | fuel + 1, length, counter =>
+    if length ≤ 0 then some [] else
     let envLen : Int := if length > 255 then 255 else length
-    let envInitial := i16 (A.trunc (A.mul256 counter))
-    let envDelta := i16 (A.trunc (A.mul256 delta))
-    let envInitial := if envInitial > 0x7eff then 0x7eff else envInitial
-    let step (envDelta : Int) (env : NBytes) :=
-      pitchChunks A useExt extend target fuel (length - envLen)
-        (A.add counter (A.ofInt (Int.tdiv (envDelta * envLen) 256))) env
-    if extend then
-      let env := env ++ [u8 (envInitial / 256), u8 envInitial, u8 (envDelta / 256), u8 envDelta, u8 (envLen - 1)]
-      step envDelta (env ++ [u8 (((env.length + 1) / 6 : Nat))])
+    let envInitial := chunkStart A counter
+    let envDelta := chunkDelta A target counter length
+    let d := if extend then envDelta else if !useExt then clamp8 envDelta else envDelta
+    if !extend && useExt && (envDelta > 127 || envDelta < -128) then none
     else
-      if !useExt then
-        let d := if envDelta > 127 then 127 else if envDelta < -128 then -128 else envDelta
-        step d (env ++ [u8 (envInitial / 256), u8 envInitial, u8 d, u8 (envLen - 1)])
-      else if envDelta > 127 || envDelta < -128 then none
-      else step envDelta (env ++ [u8 (envInitial / 256), u8 envInitial, u8 envDelta, u8 (envLen - 1)])
+      (nodeChunks A useExt extend target fuel (length - envLen)
+        (A.add counter (A.ofInt (Int.tdiv (d * envLen) 256)))).map (⟨envInitial, d, envLen⟩ :: ·)
+
+/-- the `push_back`s of one iteration -/
+def pushChunk (extend : Bool) (env : NBytes) (c : RawChunk) : NBytes :=
+  if extend then
+    let env := env ++ [u8 (c.start / 256), u8 c.start, u8 (c.delta / 256), u8 c.delta, u8 (c.len - 1)]
+    env ++ [u8 (((env.length + 1) / 6 : Nat))]
+  else env ++ [u8 (c.start / 256), u8 c.start, u8 c.delta, u8 (c.len - 1)]
 
 /-- the node length `add_pitch_node` uses -/
 def pitchLength {α} (A : Arith α) (initial target : α) (explicit : Option Int) : Int :=
@@ -402,45 +421,70 @@ def pitchLength {α} (A : Arith α) (initial target : α) (explicit : Option Int
   let l := explicit.getD l
   if l < 1 then l + 1 else l
 
+/-- a parsed token of a pitch envelope -/
+inductive PItem (α : Type)
+  | node (initial target : α) (explicit : Option Int)
+  | vib (base depth : α) (rate : Int)
+  | loop
+
+/-- the iterations of `add_pitch_node(initial>target:explicit)` -/
+def nodeOf {α} (A : Arith α) (useExt extend : Bool) (initial target : α) (explicit : Option Int) : Option (List RawChunk) :=
+  let length := pitchLength A initial target explicit
+  nodeChunks A useExt extend target length.toNat length initial
+
 def pitchNodeVals {α} (A : Arith α) (useExt extend : Bool) (initial target : α) (explicit : Option Int)
     (env : NBytes) : Option NBytes :=
-  let length := pitchLength A initial target explicit
-  pitchChunks A useExt extend target length.toNat length initial env
+  (nodeOf A useExt extend initial target explicit).map fun cs => cs.foldl (pushChunk extend) env
 
-/-- `add_pitch_node(const char* s, …)` -/
-def pitchNode {α} (A : Arith α) (useExt extend : Bool) (s : List Char) (env : NBytes) : Option NBytes :=
-  let (initial, s) := strtod A s
-  let (target, s) := match s with
-    | '>' :: r => if r.isEmpty then (initial, r) else strtod A r
-    | _ => (initial, s)
-  let explicit := match s with
-    | ':' :: r => if r.isEmpty then none else some (strtol r).1
-    | _ => none
-  pitchNodeVals A useExt extend initial target explicit env
-
-/-- `add_pitch_vibrato`: the three nodes go through `stringf("%f>%f:%d")` and back through
-`strtod`/`strtol`, i.e. through `fmt6` -/
-def pitchVibrato {α} (A : Arith α) (useExt extend : Bool) (s : List Char) (env : NBytes) : Option NBytes :=
-  let s := s.drop 1
-  let (base, s) := match s with
-    | c :: _ => if isDigit c || c == '-' then strtod A s else (A.ofInt 0, s)
-    | [] => (A.ofInt 0, s)
-  let (depth, s) := match s with
-    | ':' :: r => if r.isEmpty then (A.half, r) else let (d, s') := strtod A r; (A.halve d, s')
-    | _ => (A.half, s)
-  let rate : Int := match s with
-    | ':' :: r => if r.isEmpty then 5 else (strtol r).1
-    | _ => 5
-  let depth := A.add depth base
+/-- the three nodes of `add_pitch_vibrato`: they go through `stringf("%f>%f:%d")` and back through
+`strtod`/`strtol`, i.e. through `fmt6`; `depth` is already `depth/2 + base` -/
+def vibNodes {α} (A : Arith α) (base depth : α) (rate : Int) : List (α × α × Option Int) :=
   let fb := A.fmt6 base
   let fd := A.fmt6 depth
   let fnd := A.fmt6 (A.neg depth)
-  (pitchNodeVals A useExt extend fb fd (some rate) env).bind fun env =>
-  (pitchNodeVals A useExt extend fd fnd (some (rate * 2)) env).bind fun env =>
-  pitchNodeVals A useExt extend fnd fb (some rate) env
+  [(fb, fd, some rate), (fd, fnd, some (rate * 2)), (fnd, fb, some rate)]
+
+/-- parsing of one token; `none` = "undefined envelope value" -/
+def pitchParse {α} (A : Arith α) (tok : String) : Option (PItem α) :=
+  match tok.toList with
+  | '|' :: _ => some .loop
+  | c :: cs =>
+    if isDigit c || c == '-' then
+      -- `add_pitch_node(const char* s, …)`
+      let (initial, s) := strtod A (c :: cs)
+      let (target, s) := match s with
+        | '>' :: r => if r.isEmpty then (initial, r) else strtod A r
+        | _ => (initial, s)
+      let explicit := match s with
+        | ':' :: r => if r.isEmpty then none else some (strtol r).1
+        | _ => none
+      some (.node initial target explicit)
+    else if c == 'V' then
+      -- `add_pitch_vibrato`
+      let s := cs
+      let (base, s) := match s with
+        | c :: _ => if isDigit c || c == '-' then strtod A s else (A.ofInt 0, s)
+        | [] => (A.ofInt 0, s)
+      let (depth, s) := match s with
+        | ':' :: r => if r.isEmpty then (A.half, r) else let (d, s') := strtod A r; (A.halve d, s')
+        | _ => (A.half, s)
+      let rate : Int := match s with
+        | ':' :: r => if r.isEmpty then 5 else (strtol r).1
+        | _ => 5
+      some (.vib base (A.add depth base) rate)
+    else none
+  | [] => none
 
 inductive PErr | input | invalidArgument
 deriving Repr, DecidableEq
+
+/-- one parsed item applied to `(env_data, loop_pos)`; `none` = `std::invalid_argument` -/
+def pitchItem {α} (A : Arith α) (useExt extend : Bool) (st : NBytes × Int) : PItem α → Option (NBytes × Int)
+  | .loop => some (st.1, ((st.1.length / (if extend then 6 else 4) : Nat) : Int))
+  | .node i t e => (pitchNodeVals A useExt extend i t e st.1).map fun env => (env, st.2)
+  | .vib b d r =>
+    ((vibNodes A b d r).foldlM (fun env n => pitchNodeVals A useExt extend n.1 n.2.1 n.2.2 env) st.1).map
+      fun env => (env, ((st.1.length / (if extend then 6 else 4) : Nat) : Int))
 
 /-- the token loop shared by `add_pitch_envelope` (`extend = false`, node size 4) and
 `add_extended_pitch_envelope` (`extend = true`, node size 6) -/
@@ -448,22 +492,14 @@ def pitchTokens {α} (A : Arith α) (useExt extend : Bool) :
     List String → NBytes → Int → Except PErr (NBytes × Int)
   | [], env, lp => .ok (env, lp)
   | tok :: rest, env, lp =>
-    let sz : Nat := if extend then 6 else 4
-    match tok.toList with
-    | '|' :: _ => pitchTokens A useExt extend rest env (env.length / sz : Nat)
-    | c :: cs =>
-      if isDigit c || c == '-' then
-        match pitchNode A useExt extend (c :: cs) env with
-        | none => .error .invalidArgument
-        | some env => pitchTokens A useExt extend rest env lp
-      else if c == 'V' then
-        match pitchVibrato A useExt extend (c :: cs) env with
-        | none => .error .invalidArgument
-        | some env' => pitchTokens A useExt extend rest env' (env.length / sz : Nat)
-      else .error .input
-    | [] => .error .input
+    match pitchParse A tok with
+    | none => .error .input
+    | some it =>
+      match pitchItem A useExt extend (env, lp) it with
+      | none => .error .invalidArgument
+      | some (env, lp) => pitchTokens A useExt extend rest env lp
 
-/-- end command of the compact form; `none` = `env_data.back()` on an empty vector (UB) -/
+/-- end command of the compact form -/
 def pitchFinish (env : NBytes) (lp : Int) : NBytes :=
   if lp == -1 then env.set (env.length - 1) 0xff else env ++ [0x7f, u8 lp]
 
